@@ -5,6 +5,7 @@
 -/
 import Saltpack.Proofs.Receiver
 import Saltpack.Proofs.Authentic
+import Saltpack.Proofs.Attribution
 import Saltpack.Toy
 
 namespace Saltpack.Props.C04
@@ -76,6 +77,30 @@ theorem C04_authentic_or_break (P : Prims) (hP : P.Lawful) (s : Signcrypt.State)
         (r.err = none → m = e.plan.length)) ∨
     AuthSc.Break P spk H :=
   AuthSc.authentic_or_break P hP s spk hs hhl H hplan hone items tail
+
+/-- **Attribution.** Whenever a signcryption header is accepted: the payload key
+    came out of one of the header's recipient entries, opened under a key derived
+    from one of the receiver's own box secret keys (with matching identifier) or
+    a symmetric key its resolver supplied for that entry; the sender the receiver
+    reports (`st.sender`, under which every packet's signature must verify —
+    `C04_accept_binds`) is the keyring's answer for the content of the sender
+    secretbox under that payload key, and "anonymous" is reported exactly when
+    that content is all zero. -/
+theorem C04_attribution (P : Prims) (kr : Keyring) (res : Signcrypt.Resolver) (hh : Bytes)
+    (h : EncHeader) (log : List KeyCall) (st : Signcrypt.State)
+    (hok : Signcrypt.processHeader P kr res hh h = (log, .ok st)) :
+    Signcrypt.validate h = .ok () ∧ st.headerHash = hh ∧ st.payloadKey.length = 32 ∧
+    (∃ senderKey, P.sbOpen st.payloadKey Nonce.senderKeySecretBox h.senderSecretbox = some senderKey ∧
+      (st.sender = none ↔ senderKey.all (· == 0) = true) ∧
+      (∀ spk, st.sender = some spk → kr.lookupSigningPublicKey senderKey = some spk)) ∧
+    ∃ eph, kr.importBoxEphemeralKey h.ephemeral = some eph ∧
+      ∃ r i dk, h.receivers[i]? = some r ∧
+        P.sbOpen dk (Nonce.payloadKeyBoxV2 i) r.box = some st.payloadKey ∧
+        ((∃ sk, sk ∈ kr.getAllBoxSecretKeys ∧ dk = Signcrypt.derivedKeyFromBoxKeys P eph sk ∧
+            Signcrypt.keyIdentifier P dk i = Decrypt.kidOf r) ∨
+         (∃ f keys k, res = some f ∧ f (h.receivers.map Decrypt.kidOf) = .ok keys ∧
+            keys[i]? = some (some k) ∧ dk = Signcrypt.symDerivedKey P eph k)) :=
+  signcrypt_attribution P kr res hh h log st hok
 
 example : Toy.prims.Lawful := Toy.lawful
 
